@@ -29,7 +29,7 @@ def plan(tier):
             "required_monitors": ["pixels-judged", "column-samples", "schedule-runs", "boundscheck-runs"],
             "required_tags": ["slab-thinner-than-cell", "slab-thicker-than-cell", "op-sum", "op-mean", "op-min",
                               "op-max", "op-nansum", "op-nanmean", "op-nanmin", "op-nanmax", "z-resolution-given",
-                              "z-resolution-default", "oblique", "deep-column-default-z"]}
+                              "z-resolution-default", "oblique", "deep-column-default-z", "operation-set-on-the-layer"]}
 
 
 def cases(ctx):
@@ -81,6 +81,8 @@ def run_case(case, ctx, res):
     info = maps.run_map(osy, rng, res, mesh, req, thick=True)
     typical = float(np.median(mesh["size"]))
     res.tag("op-" + req["operation"])
+    if req.get("op_on_layer"):
+        res.tag("operation-set-on-the-layer")
     res.tag("slab-thinner-than-cell" if req["dz"] < typical else "slab-thicker-than-cell")
     res.tag("z-resolution-given" if isinstance(req["resolution"], dict) and "z" in req["resolution"] else "z-resolution-default")
     if req.get("dir_mode") in ("vector", "vector-zero"):
